@@ -231,7 +231,9 @@ class FilenamesRun(Contract):
         g['sleeps'] = VInt(0)
         g['emitted_before_seen'] = VBool(False)
         self.seen0, self.G = seen0, G
-        selfv = st.new_obj('filenames', {'seen': st.new_set(SetCell(seen0, K_STRING, None)), 'path': VString(z3.String('path')),
+        seen_card = z3.Int('seen_card')
+        st.assume(seen_card >= 0)
+        selfv = st.new_obj('filenames', {'seen': st.new_set(SetCell(seen0, K_STRING, seen_card)), 'path': VString(z3.String('path')),
                                          'poll_interval': VReal(z3.Real('poll'))})
         self.pre_args = {'self': selfv}
         self.pre_state = st.snapshot()
